@@ -317,6 +317,11 @@ func newton_min(
       } else {
         t1.VmulS(t1, alpha)
         x2.VsubV(x1, t1)
+        // as below: without progress every following iteration would be
+        // identical to this one
+        if Vequals(x1, x2) {
+          return x1, fmt.Errorf("line search failed")
+        }
       }
     } else {
       for {
